@@ -696,7 +696,7 @@ func (vr *violRec) consider(a *alphabet, rc *refCache, hist []byte, vs []viol) {
 	for _, v := range vs {
 		vr.n[v.Sig]++
 		rec := vr.sigs[v.Sig]
-		if rec != nil && (rec.depth < depth || (len(rec.top) >= keepPerSig && bytes.Compare(hist, rec.top[len(rec.top)-1].hist) > 0)) {
+		if rec != nil && (rec.depth < depth || (rec.depth == depth && len(rec.top) >= keepPerSig && bytes.Compare(hist, rec.top[len(rec.top)-1].hist) > 0)) {
 			continue
 		}
 		need = append(need, v)
@@ -731,6 +731,9 @@ func (vr *violRec) consider(a *alphabet, rc *refCache, hist []byte, vs []viol) {
 		}
 		if rec.depth < depth {
 			continue
+		}
+		if rec.depth > depth { // a shorter history replaces everything recorded so far
+			rec.depth, rec.top = depth, nil
 		}
 		rec.top = append(rec.top, fv)
 		sort.Slice(rec.top, func(i, j int) bool { return bytes.Compare(rec.top[i].hist, rec.top[j].hist) < 0 })
